@@ -160,7 +160,36 @@ func c18DeclCond(r *core.Run, prog *core.Program) {
 	}
 	// declarations of the host
 	declared := map[string][]declSite{}
-	gtWalk(host.tree, gcTrue{}, func(l *gtLit, pc gtCond) {
+	var declVisit func(l *gtLit, pc gtCond)
+	var declCall func(c *gtCall, pc gtCond)
+	declDepth := 0
+	helperPC := map[*types.Func]gtCond{} // helpers of the host: the condition under which the host calls them
+	declCall = func(c *gtCall, pc gtCond) {
+		// declarations kept in a helper of the host (not an opcode fragment): its literals are declared
+		// under the call's condition and the helper's own
+		if fd := decls[c.fn]; fd != nil && declDepth < 2 && !(fd.Recv != nil && vFragMeths[fd.Name.Name]) {
+			g := frags[c.fn]
+			if g == nil {
+				g = gtBuild(info, fd)
+				if g == nil {
+					return
+				}
+				frags[c.fn] = g
+				for o := range g.consts {
+					funcs[o] = g
+				}
+			}
+			if old, ok := helperPC[c.fn]; ok {
+				helperPC[c.fn] = gcOr{old, pc}
+			} else {
+				helperPC[c.fn] = pc
+			}
+			declDepth++
+			gtWalk(g.tree, pc, declVisit, declCall)
+			declDepth--
+		}
+	}
+	declVisit = func(l *gtLit, pc gtCond) {
 		gtAtoms(pc, funcs, map[string]bool{}, modesSet, map[types.Object]bool{})
 		text := vStrip(l.text)
 		for _, mm := range vDeclKwRe.FindAllStringSubmatch(text, -1) {
@@ -175,7 +204,8 @@ func c18DeclCond(r *core.Run, prog *core.Program) {
 				declared[nm] = append(declared[nm], declSite{pc, l.pos})
 			}
 		}
-	}, nil)
+	}
+	gtWalk(host.tree, gcTrue{}, declVisit, declCall)
 	var modes []string
 	for m := range modesSet {
 		modes = append(modes, m)
@@ -194,7 +224,11 @@ func c18DeclCond(r *core.Run, prog *core.Program) {
 	uses := map[useKey][]declSite{}
 	for fn, f := range frags {
 		fn := fn
-		gtWalk(f.tree, gcTrue{}, func(l *gtLit, pc gtCond) {
+		var start gtCond = gcTrue{}
+		if pc, ok := helperPC[fn]; ok {
+			start = pc
+		}
+		gtWalk(f.tree, start, func(l *gtLit, pc gtCond) {
 			text := vStrip(l.text)
 			// in the host, the declaring literal itself is not a use
 			for _, tok := range identRe.FindAllString(text, -1) {
